@@ -328,6 +328,7 @@ int main(int argc, char** argv) {
       tr.raw(d.str());
     }
     tr.write(argv[2]);
+    for (auto& r : support_rows(std::make_integer_sequence<int, 7>{})) std::printf("SUPPORT %s\n", r.c_str());
     std::printf("SUMMARY agree=%d fail=%d\n", o.nagree, o.nfail);
     return 0;
   }
